@@ -167,6 +167,28 @@ func genAggDump(t *rapid.T, maxG int) DumpM {
 	return d
 }
 
+// genAggRaceDump: a race report whose operations share stacks and creation stacks, so that
+// aggregating it (the library allows it) merges goroutines with multi-frame creators.
+func genAggRace(t *rapid.T) RaceM {
+	r := genRace(t, RaceOpts{MaxOps: 4, MaxFrames: 3, Args: true})
+	r.CRLF = false
+	for i := 1; i < len(r.Ops); i++ {
+		if rapid.Bool().Draw(t, "sameOpStack") {
+			r.Ops[i].Frames = cloneFrames(r.Ops[0].Frames)
+			if sl := scalarSlots(r.Ops[i].Frames); len(sl) > 0 && rapid.Bool().Draw(t, "perturbArg") {
+				sl[0].Val = 0xc000000000 + uint64(i)*8
+			}
+		}
+	}
+	for i := 1; i < len(r.Secs); i++ {
+		if rapid.Bool().Draw(t, "sameSecStack") {
+			r.Secs[i].Frames = cloneFrames(r.Secs[0].Frames)
+			r.Secs[i].Finished = r.Secs[0].Finished
+		}
+	}
+	return r
+}
+
 // universe16: signature variants differing in the attributes the levels respect or ignore.
 func universe16() []GM {
 	fr := func(arg *ArgM, line int) []FrameM {
